@@ -45,6 +45,30 @@ KNOWN = os.path.join(VERIF, "known_findings.json")
 PARTIAL = False
 GUARD = "--cfg markschl_seq_io_verif --check-cfg cfg(markschl_seq_io_verif)"
 
+# VERIF_REPO=<dir>: run the checks against a scratch copy of the repository (used only to try seeded
+# changes in parallel); the harness and replay crates are copied with their path dependency rewritten
+# and get their own target directories.  The registered commands never set it: they check /repo.
+ALT_REPO = os.environ.get("VERIF_REPO", "")
+if ALT_REPO and os.path.abspath(ALT_REPO) != "/repo":
+    REPO = os.path.abspath(ALT_REPO)
+    _tag = hashlib.sha1(REPO.encode()).hexdigest()[:8]
+    _alt = os.path.join(WORK, "alt-" + _tag)
+    for _name in ("kani", "replay"):
+        _dst = os.path.join(_alt, _name)
+        shutil.rmtree(_dst, ignore_errors=True)
+        shutil.copytree(os.path.join(VERIF, _name), _dst, ignore=shutil.ignore_patterns("target"))
+        _ct = open(os.path.join(_dst, "Cargo.toml")).read()
+        _ct = _ct.replace('path = "/repo"', 'path = "%s"' % REPO).replace('path = "../shims/memchr"', 'path = "%s/shims/memchr"' % VERIF)
+        _ct = _ct.replace('path = "../kani/src/lib.rs"', 'path = "%s/kani/src/lib.rs"' % _alt)
+        open(os.path.join(_dst, "Cargo.toml"), "w").write(_ct)
+    KANI_DIR = os.path.join(_alt, "kani")
+    REPLAY_DIR = os.path.join(_alt, "replay")
+    KT = os.path.join(_alt, "kani-target")
+    RT = os.path.join(_alt, "replay-target")
+    LOGS = os.path.join(_alt, "logs")
+    EVID = os.path.join(_alt, "evidence")
+    REPLAYS = os.path.join(_alt, "replays")
+
 ENV = dict(os.environ)
 ENV["CARGO_NET_OFFLINE"] = "true"
 ENV["RUSTFLAGS"] = GUARD
@@ -262,15 +286,19 @@ def parse_kani(out):
 
 
 def parse_playback(out):
-    """extract concrete_vals of the first printed playback test -> list of hex strings"""
-    m = re.search(r"let concrete_vals: Vec<Vec<u8>> = vec!\[(.*?)\n\s*\];", out, re.S)
-    if not m:
-        return None
-    vals = []
-    for vm in re.finditer(r"vec!\[([0-9, ]*)\]", m.group(1)):
-        nums = [int(x) for x in vm.group(1).replace(" ", "").split(",") if x != ""]
-        vals.append("".join("%02x" % n for n in nums))
-    return vals
+    """all concrete playback tests printed by Kani -> list of (kind, description, [hex values])"""
+    tests = []
+    for blk in re.split(r"Concrete playback unit test for", out)[1:]:
+        km = re.search(r"/// Check for `(\w+)`: \"(.*?)\"\s*$", blk, re.M)
+        m = re.search(r"let concrete_vals: Vec<Vec<u8>> = vec!\[(.*?)\n\s*\];", blk, re.S)
+        if not m:
+            continue
+        vals = []
+        for vm in re.finditer(r"vec!\[([0-9, ]*)\]", m.group(1)):
+            nums = [int(x) for x in vm.group(1).replace(" ", "").split(",") if x != ""]
+            vals.append("".join("%02x" % n for n in nums))
+        tests.append((km.group(1) if km else "?", km.group(2) if km else "", vals))
+    return tests
 
 
 # ----------------------------------------------------------------------------------------------
@@ -298,7 +326,9 @@ def native_replay(name, tape, profile="debug", focus=""):
         return dict(outcome="build-failed")
     env2 = dict(ENV)
     env2["SV_FOCUS"] = focus if focus != "ALL" else ""
-    rc, out, _ = run([os.path.join(path, "replay"), name, ",".join(tape) if tape else "-"], VERIF, 120, env=env2)
+    rc, out, _ = run([os.path.join(path, "replay"), name, ",".join(tape) if tape else "-"], VERIF, 20, env=env2)
+    if rc == -999:
+        return dict(outcome="hang", notes={}, message="native run did not finish within 20 s")
     last = [l for l in out.splitlines() if l.startswith("{")]
     try:
         return json.loads(last[-1])
@@ -367,6 +397,25 @@ def decide_harness(h, tier, prop=""):
         rec["failed"] = [dict(check=a, desc=b, loc=c) for a, b, c in r["failed"]][:20]
         if r["unwind_fail"]:
             rec["verdict"] = "unwind-too-small"
+            if prop != "C06":
+                return rec
+            # C06 (no hang): a loop of the code under test that does not finish within a bound derived
+            # from the input size may be a genuine non-termination. Ask for the concrete input and run it
+            # natively under a watchdog: only a native hang is reported.
+            log2 = os.path.join(LOGS, name + ".playback.log")
+            rc2, out2, wall2 = run(kani_cmd(h, ["-Z", "concrete-playback", "--concrete-playback=print"]),
+                                   KANI_DIR, h["timeout"], h["mem"], log2)
+            rec["wall_s"] = round(wall + wall2, 1)
+            for kind, desc, tape in [t for t in parse_playback(out2) if "unwinding" in t[1]][:4]:
+                nat = native_replay(name, tape, "release", "")
+                if nat.get("outcome") == "hang":
+                    rec["verdict"] = "cex-reproduced"
+                    rec["tape"] = tape
+                    nat["message"] = "C06 the call does not return (native run killed by the watchdog after 20 s): " + desc
+                    rec["native_debug"] = nat
+                    rec["native_release"] = nat
+                    rec["failed"] = [dict(check="unwinding", desc=desc, loc="")]
+                    break
             return rec
         # attribution: assertions are labelled with the property they decide; unlabelled checks are
         # the built-in ones (panic, overflow, bounds, pointer validity) and count for every property
@@ -394,20 +443,25 @@ def decide_harness(h, tier, prop=""):
         rc2, out2, wall2 = run(kani_cmd(h, ["-Z", "concrete-playback", "--concrete-playback=print"]),
                                KANI_DIR, h["timeout"], h["mem"], log2, env=env2)
         rec["wall_s"] = round(wall + wall2, 1)
-        tape = parse_playback(out2)
-        rec["tape"] = tape
-        if tape is None:
+        tests = [t for t in parse_playback(out2) if t[0] != "cover"]
+        # counterexamples of this property's (or the lemma's) obligations first
+        want = (lemma or prop) + " "
+        tests.sort(key=lambda t: 0 if t[1].startswith(want) else 1)
+        rec["tape"] = None
+        rec["lemma_of"] = lemma
+        if not tests:
             rec["verdict"] = "cex-no-tape"
             return rec
-        nat = native_replay(name, tape, "debug", lemma or prop)
-        natr = native_replay(name, tape, "release", lemma or prop)
-        rec["native_debug"] = nat
-        rec["native_release"] = natr
-        rec["lemma_of"] = lemma
-        if nat.get("outcome") == "fail" or natr.get("outcome") == "fail":
-            rec["verdict"] = "cex-reproduced"
-        else:
-            rec["verdict"] = "cex-not-reproduced"
+        rec["verdict"] = "cex-not-reproduced"
+        for kind, desc, tape in tests[:6]:
+            nat = native_replay(name, tape, "debug", lemma or prop)
+            natr = native_replay(name, tape, "release", lemma or prop)
+            rec["tape"] = tape
+            rec["native_debug"] = nat
+            rec["native_release"] = natr
+            if nat.get("outcome") == "fail" or natr.get("outcome") == "fail":
+                rec["verdict"] = "cex-reproduced"
+                break
         return rec
     rec["verdict"] = "error"
     rec["tail"] = out[-1500:]
@@ -456,7 +510,8 @@ def main():
     if prop in ("C07", "C08", "C15", "C16"):
         e3 = os.path.join(VERIF, "e3", "check_par.py")
         if os.path.exists(e3):
-            return subprocess.call([sys.executable, e3, prop, "--tier", tier])
+            vt = shutil.which("python3-vt") or sys.executable
+            return subprocess.call([vt, e3, prop, "--tier", tier])
     os.makedirs(LOGS, exist_ok=True)
     os.makedirs(EVID, exist_ok=True)
     os.makedirs(REPLAYS, exist_ok=True)
